@@ -195,6 +195,7 @@ func (intp *Interpreter) executeOne(obj Object, execProc bool) error {
 	// 	fmt.Println("|-", intp.stackString(), "|", intp.objectString(obj))
 	// }
 
+	counted := execProc
 	if execProc {
 		if intp.execStackDepth >= 100 {
 			return intp.e(eExecstackoverflow, "exec stack overflow")
@@ -243,6 +244,16 @@ recurseTail:
 		val, err := intp.load(o)
 		if err != nil {
 			return err
+		}
+		if _, isProc := val.(Procedure); isProc && !counted {
+			// a procedure called by name nests the execution just like
+			// one called by an operator
+			if intp.execStackDepth >= 100 {
+				return intp.e(eExecstackoverflow, "exec stack overflow")
+			}
+			intp.execStackDepth++
+			defer func() { intp.execStackDepth-- }()
+			counted = true
 		}
 		obj = val
 		execProc = true
